@@ -164,6 +164,21 @@ class Checker:
                 for b, x in zip(bound.elts, v):
                     self.size_check(b, x, where + '.*')
 
+    def check_entry(self, f, args):
+        """facts about the arguments themselves (sizes / shared size variables of the parameter definitions) hold at entry"""
+        A = self.A
+        if 'size' not in A:
+            return
+        from fpy2.ast import fpyast as F
+        by_name = {}
+        for d, b in A['size'].by_def.items():
+            if isinstance(getattr(d, 'site', None), F.Argument) and b is not None:
+                by_name[str(d.name)] = b
+        for arg, v in zip(f.ast.args, args):
+            b = by_name.get(str(arg.name))
+            if b is not None:
+                self.size_check(b, v, 'argument ' + str(arg.name))
+
     def __call__(self, e, v):
         A = self.A
         where = e.format()[:60]
@@ -269,7 +284,9 @@ def run_task(task):
         pending = []
         ck = Checker(A, lambda kind, ok, info: pending.append((kind, ok, info)), cover)
         try:
-            tracer.run_traced(rt, f, sa.build(), C, ck)
+            built = sa.build()
+            ck.check_entry(f, built)
+            tracer.run_traced(rt, f, built, C, ck)
         except Exception as ex:  # noqa  the analyses describe executions in which every operation has a result
             e.cover('run-raised', True)
             return
@@ -305,6 +322,7 @@ def concrete_violations(p, args, C):
     ck = Checker(A, report, lambda w: None)
     ck.symbolic = False
     try:
+        ck.check_entry(f, args)
         tracer.run_traced(byte.BytecodeInterpreter(), f, args, C, ck)
     except Exception:  # noqa  a run that raises is not described by the analyses
         return [], 0
